@@ -31,6 +31,7 @@ def handle (line : String) : String :=
   match line.trimAscii.toString.splitOn " " with
   | "X02" :: rest => handleX02 rest
   | "A01" :: rest => handleA01 rest
+  | "A19" :: rest => handleA19 rest
   | _ => "bad-request"
 
 partial def loop (h : IO.FS.Stream) (out : IO.FS.Stream) : IO Unit := do
